@@ -62,7 +62,11 @@ Check(e) ==
      \cup (IF e.panicked = <<>> THEN {} ELSE {"C13_NoPanic"})
 Init == l = 1
 Next == /\ l <= Len(Rec)
-        /\ LET e == Rec[l] f == Check(e) IN
+        /\ LET e == Rec[l]
+               \* a joiner behind a link slower than the initial request timeout still bootstraps (the adaptive timeout learns from late answers)
+               f == IF e.e = "slowjoin"
+                    THEN (IF e.joined /\ e.bootstrapped THEN {} ELSE {"C13_SlowLinkJoins"}) \cup (IF e.panicked THEN {"C13_NoPanic"} ELSE {})
+                    ELSE Check(e) IN
            IF f # {} THEN PrintT(<<"VIOL", ToJson([line |-> l, b |-> e.b, failed |-> f, spec |-> e.spec])>>) ELSE TRUE
         /\ l' = l + 1
 Spec == Init /\ [][Next]_l
